@@ -548,7 +548,7 @@ func listNewOrder(c *core.Ctx) {
 	iSym := an.Start[h].Reg(idx)
 	ok := true
 	why := ""
-	var jTerm *ir.Term // the index of the element prepended in an iteration, as a term over the loop counter
+	var jTerm *ir.Term   // the index of the element prepended in an iteration, as a term over the loop counter
 	var descPhi *ssa.Phi // the loop-carried descriptor when New builds its result by repeated push
 	descList, descLen := "", ""
 	var accNow func(p *ir.Path) *ir.Term // the accumulated list as seen at the start of a path from h
